@@ -231,7 +231,7 @@ impl Env {
                 // op[2] = simulated downtime in ms: the file is written as of (now - downtime)
                 let down = tok_int(&op[2]);
                 let w = wall_ms() - down;
-                nop.truncate(2); nop.push(Tok::I(w));
+                nop.truncate(3); nop.push(Tok::I(w));     // [MSAVE t downtime wall]: replayable as is
                 let mut hist = self.done_ops.clone();
                 hist.push(vec![b("MBYTES"), Tok::I(t), Tok::I(w)]);
                 match model_bytes(prop, &hist) {
@@ -659,7 +659,7 @@ fn judge_raw(c: &Case, outs: &[Vec<Tok>]) -> Vec<String> {
 fn msave_down(c: &Case, k: usize) -> i128 {
     let mut res = 0; let mut w = None;
     for op in &c.ops[..k] {
-        match tok_bytes(&op[0]) { b"MSAVE" => w = Some(tok_int(&op[2])), b"RELOAD" => if let Some(x) = w { res = tok_int(&op[2]) - x; }, _ => {} }
+        match tok_bytes(&op[0]) { b"MSAVE" => w = Some(tok_int(&op[3])), b"RELOAD" => if let Some(x) = w { res = tok_int(&op[2]) - x; }, _ => {} }
     }
     res
 }
